@@ -46,8 +46,12 @@ type NodeSpec struct {
 	Parent int      `json:"parent"` // index of the parent node; node 0 is the genesis block
 	Diff   int64    `json:"diff"`
 	Txs    []TxSpec `json:"txs,omitempty"`
-	Valid  bool     `json:"valid"`         // false: header.GasUsed is off by one (fails ValidateState)
-	Fan    int      `json:"fan,omitempty"` // additionally: a contract creation whose init code writes this many storage slots (a big state change: one trie commit spans several batch flushes)
+	Valid  bool     `json:"valid"` // false: header.GasUsed is off by one (fails ValidateState)
+	// "deploy": account 3 creates five contracts (nonces 0..4): code without storage; storage and its own
+	// code; two contracts with the SAME code, one without and one with storage; a contract with one slot
+	// whose code clears it.  "clear": account 3 calls the fifth contract, which empties its storage.
+	Contracts string `json:"contracts,omitempty"`
+	Fan       int    `json:"fan,omitempty"` // additionally: a contract creation whose init code writes this many storage slots (a big state change: one trie commit spans several batch flushes)
 }
 
 type OpSpec struct {
@@ -167,6 +171,47 @@ func BuildTree(c *vh.Ctx, spec []NodeSpec) *Tree {
 					c.Fatal("sign: %v", err)
 				}
 				g.AddTx(tx)
+			}
+			if sp.Contracts != "" {
+				key, _ := crypto.HexToBtcec(keyHex[3])
+				from := crypto.PubkeyToAddress(key.PubKey())
+				// init code: [optional SSTORE(1,1)] ; CODECOPY the runtime to memory 0 ; RETURN it
+				initCode := func(store bool, runtime []byte) []byte {
+					var c []byte
+					if store {
+						c = append(c, 0x60, 0x01, 0x60, 0x01, 0x55)
+					}
+					off := byte(len(c) + 12)
+					c = append(c, 0x60, byte(len(runtime)), 0x60, off, 0x60, 0x00, 0x39, 0x60, byte(len(runtime)), 0x60, 0x00, 0xf3)
+					return append(c, runtime...)
+				}
+				send := func(tx *types.Transaction) {
+					stx, err := types.SignTx(tx, signer, key)
+					if err != nil {
+						c.Fatal("sign: %v", err)
+					}
+					g.AddTx(stx)
+				}
+				switch sp.Contracts {
+				case "deploy":
+					if g.TxNonce(from) != 0 {
+						c.Fatal("contracts: account 3 must be unused before the deploy block")
+					}
+					shared := []byte{0x60, 0x33, 0x50, 0x00}
+					for _, ic := range [][]byte{
+						initCode(false, []byte{0x60, 0x11, 0x50, 0x00}),            // (i) code, no storage
+						initCode(true, []byte{0x60, 0x22, 0x50, 0x00}),             // (ii) storage, own code
+						initCode(false, shared),                                    // (iii-a) shared code, no storage
+						initCode(true, shared),                                     // (iii-b) shared code, storage
+						initCode(true, []byte{0x60, 0x00, 0x60, 0x01, 0x55, 0x00}), // (iv) one slot; calling it clears the slot
+					} {
+						send(types.NewContractCreation(g.TxNonce(from), big.NewInt(0), 300000, nil, ic))
+					}
+				case "clear":
+					send(types.NewTransaction(g.TxNonce(from), crypto.CreateAddress(from, 4), big.NewInt(0), 100000, nil, nil))
+				default:
+					c.Fatal("unknown contracts preset %q", sp.Contracts)
+				}
 			}
 			if sp.Fan > 0 {
 				// one contract creation whose init code stores Fan slots:
